@@ -951,7 +951,7 @@ def run(c: Check):
               "assignment; graph cases: a task over 1-8 configurations held directly, in "
               "lists, dicts, lists of lists, dicts of lists, lists of dicts, pre-tasks and init tasks, one required "
               "value removed at a random node in 70 %, real submit (or validate() for cyclic graphs, or two submits "
-              "sharing nodes, or a pipeline history: 2-3 tasks, the upstream ones go through their own submit - "
+              "sharing nodes, or a retry history: rejected submit, the missing value supplied, second submit, or a pipeline history: 2-3 tasks, the upstream ones go through their own submit - "
               "accepted or rejected - and are then assigned, directly / in a list / dict / list of lists / inside a "
               "held configuration, to the downstream ones, which are submitted in turn). Non-trivial = assignment "
               "with a container or configuration type; graph with >= 3 reachable nodes; distinct by canonical case")
@@ -1053,7 +1053,9 @@ def run(c: Check):
         "what follows validation inside submit (seal, identifier, dependencies) is assumed not to raise for the "
         "acyclic graphs generated; cyclic graphs are only given to validate() because submit raises RecursionError on them",
         "sealing by an accepted submit is not part of the session model (C14's subject): the generated histories never "
-        "assign to an object that an earlier submit has reached, and submit each task once",
+        "assign to an object that an accepted submit has reached (retry histories assign below a REJECTED submit only)",
+        "the order of the steps of submit (job created, validation, registration) is the model's; the harness observes "
+        "the scheduler registry, the job flag and the init tasks after every call",
         "declared defaults are generated for configuration-free types only (a configuration default is cloned by "
         "TypeConfig.__init__, a submitted task default becomes an unsubmitted one)",
     ]
